@@ -27,6 +27,15 @@ class LibraryRaised(InternalError):
         self.mod, self.fn, self.arg, self.tb, self.typ, self.env = mod, fn, arg, tb, typ, env
 
 
+class WorkerCrashed(InternalError):
+    """The interpreter running the staged library died (signal, abort) while
+    evaluating one argument of a check."""
+
+    def __init__(self, mod, fn, arg, crash, env):
+        InternalError.__init__(self, 'worker crashed in %s.%s: %r' % (mod, fn, crash))
+        self.mod, self.fn, self.arg, self.crash, self.env = mod, fn, arg, crash, env
+
+
 class Crash:
     """Result placeholder: the worker died while evaluating this argument."""
 
